@@ -87,6 +87,38 @@ class C05(Prop):
                 g.step()
             for be in storelib.BACKENDS:
                 out.append(("lifecycle-history", {"backend": be, "ops": g.ops}))
+        # every kind of write, then delete the bucket, re-create the same id and write again the same way: anything a
+        # backend remembers about the old bucket (row numbers, keys, handles) must be gone
+        for i in range(ctx.pick(40, 600)):
+            g = LifeGen(rng)
+            b = rng.choice(g.buckets)
+            other = [x for x in g.buckets if x != b][0]
+            g.ops.append(["create", b, storegen.mk_meta(rng, b)])
+            g.ops.append(["create", other, storegen.mk_meta(rng, other)])
+            g.alive |= {b, other}
+
+            def writes():
+                for _ in range(rng.randint(1, 4)):
+                    k = rng.random()
+                    if k < 0.35:
+                        g.op_insert(b)
+                    elif k < 0.7:
+                        g.op_bulk(b)
+                    elif k < 0.85:
+                        g.op_replacelast(b)
+                    else:
+                        g.op_insert(other)
+            writes()
+            g.ops.append(["delbucket", b])
+            g.live[b] = []
+            if rng.random() < 0.3:
+                g.ops.append(["lookup", b])
+            g.ops.append(["create", b, storegen.mk_meta(rng, b)])
+            writes()
+            g.ops.append(["get", b, -1, None, None])
+            g.ops.append(["buckets"])
+            for be in storelib.BACKENDS:
+                out.append(("recreate-history", {"backend": be, "ops": g.ops}))
         return out
 
     def impl(self, case):
@@ -105,6 +137,11 @@ class C05(Prop):
         return storelib.same_history(case["backend"], io, mo)
 
     def oracle(self, case, out):
+        if "resolved" in out:
+            # the events of a (re-)created bucket are exactly the ones written since it was created
+            w = storegen.RefModel().check(out["resolved"], out["outs"], out["dumps"])
+            if w:
+                return w
         ref = {}  # bucket -> expected metadata fields (name None = not given)
         nev = {}
         prev = {}
